@@ -3,9 +3,9 @@ CONSTANTS
   Cases <- MCCases
   KFSites = {"rewind_trunc", "andis_trunc", "trymap_shelter", "trymap_rehome", "trymap_override", "filter_found"}
   Fam = "peg"
-  MaxSize = 2
+  MaxSize = 3
   Alphabet = {"a", "b"}
-  MaxLen = 2
+  MaxLen = 3
   Kinds = {"str"}
   Etys = {"rich"}
   Modes = {"E", "C"}
